@@ -92,6 +92,56 @@ fn prepare(rng: &mut Rng) -> Option<Scen> {
     Some(s)
 }
 
+/// C15's share of the pause matrix: a pause that has RUN OUT must stop blocking every gated user instruction at once, with the
+/// group's cached copy still saying "paused" (nobody unpaused, nobody propagated again): a plain pause at +1800 / +1801 / a day
+/// later, an extended one at its extended end, a re-propagated extension, a fresh pause after a lapsed one.
+pub fn run_lapsed(rng: &mut Rng, n: usize, rep: &mut Report) {
+    let mut cells = 0usize;
+    while cells < n {
+        let Some(base) = prepare(rng) else { rep.bump("prepare_failed"); cells += 1; continue };
+        for (timing, variant, off) in [
+            ("plain+1800", 0u8, 1800i64), ("plain+1801", 0, 1801), ("plain+86400", 0, 86_400),
+            ("extended+3600", 1, 3000), ("re-propagated-extension+3000", 2, 3000), ("fresh-pause-after-lapse+1800", 3, 1800),
+        ] {
+            for (name, act) in actions() {
+                if name == "collect_fees" {
+                    continue;
+                }
+                let mut s = clone_scen(&base);
+                let mut scratch = Report::default();
+                let mut ok = s.w.exec(&ix::panic_pause(s.fee_admin)).is_ok();
+                match variant {
+                    0 => { ok &= s.w.exec(&ix::propagate_fee_state(s.group)).is_ok(); }
+                    1 => {
+                        s.w.advance(600);
+                        ok &= s.w.exec(&ix::panic_pause(s.fee_admin)).is_ok();
+                        ok &= s.w.exec(&ix::propagate_fee_state(s.group)).is_ok();
+                    }
+                    _ => {
+                        ok &= s.w.exec(&ix::propagate_fee_state(s.group)).is_ok();
+                        s.w.advance(if variant == 2 { 600 } else { 90_000 });
+                        ok &= s.w.exec(&ix::panic_pause(s.fee_admin)).is_ok();
+                        ok &= s.w.exec(&ix::propagate_fee_state(s.group)).is_ok();
+                    }
+                }
+                if !ok {
+                    rep.fail(format!("setup of the lapsed pause failed ({})", timing));
+                    continue;
+                }
+                s.w.advance(off);
+                let r = s.step(&act, &mut scratch);
+                cells += 1;
+                rep.bump("cases");
+                rep.bump(&format!("lapsed_{}", timing));
+                let code = match &r { Some(Err(e)) => e.code(), _ => None };
+                if code == Some(PROTOCOL_PAUSED) {
+                    rep.fail(format!("{} is still refused with ProtocolPaused although the pause has run out ({}; nobody unpaused or propagated again)", name, timing));
+                }
+            }
+        }
+    }
+}
+
 pub fn run(rng: &mut Rng, n: usize, rep: &mut Report) {
     let mut cells = 0usize;
     while cells < n {
